@@ -122,7 +122,7 @@ func (c06) Build(tier string, seed uint64) []any {
 	}
 	small, nGrid, nLine, nRand := 12, 150, 40, 12
 	if th {
-		small, nGrid, nLine, nRand = 20, 6400, 400, 200
+		small, nGrid, nLine, nRand = 24, 12800, 1500, 500
 	}
 	k := 0
 	for w := 1; w <= small; w++ {
@@ -139,7 +139,7 @@ func (c06) Build(tier string, seed uint64) []any {
 		c := &c06Case{Gen: "grid"}
 		randC06Config(r, c)
 		if th {
-			c.W, c.H = 1+i%80, 1+i/80
+			c.W, c.H = 1+i%80, 1+(i/80)%80
 		} else {
 			c.W, c.H = 1+r.Intn(80), 1+r.Intn(80)
 		}
